@@ -649,4 +649,402 @@ Proof.
   apply in_map_iff in Hin. destruct Hin as (p & Hp & _). now inversion Hp.
 Qed.
 
+(* ==== consequences of the closed form ========================================================== *)
+Lemma closed_share_matches : forall holders R i,
+  lift K g (sh_share (closed_shard holders R i)) = mv K (rows i) (sh_vv (closed_shard holders R i)).
+Proof. intros. cbn [closed_shard sh_share sh_vv]. now rewrite mv_lift. Qed.
+
+Lemma closed_pk : forall holders R i, (0 < D)%nat ->
+  sh_pk (closed_shard holders R i) = hd 0 R * g.
+Proof. intros holders R i HD. cbn [closed_shard sh_pk]. now rewrite dot_lift_r, dot_e0. Qed.
+
+Lemma dot_fold_vadd_l : forall c n l a, length a = n -> Forall (fun v => length v = n) l ->
+  dot K (fold_left (vadd K) l a) c = fold_left (fun acc v => acc + dot K v c) l (dot K a c).
+Proof.
+  induction l as [|x l IH]; intros a Ha Hl; cbn [fold_left]; [reflexivity|].
+  inversion Hl as [|? ? Hx Hl']; subst.
+  rewrite IH; [|rewrite vadd_length; congruence|exact Hl']. rewrite dot_vadd_l by congruence. reflexivity.
+Qed.
+
+Lemma fold_left_ext_in : forall {A B : Type} (f f' : A -> B -> A) (l : list B) (a : A),
+  (forall acc x, In x l -> f acc x = f' acc x) -> fold_left f l a = fold_left f' l a.
+Proof.
+  intros A B f f' l. induction l as [|x l IH]; intros a H; cbn [fold_left]; [reflexivity|].
+  rewrite (H a x (or_introl eq_refl)). apply IH. intros acc y Hy. apply H. now right.
+Qed.
+
+(* any coefficients λ with λ·M_S = e0 recover the first entry of the shared column *)
+Lemma recon_closed : forall S lam R (shareof : N -> list F),
+  recon_ok K rows D S lam = true -> (0 < D)%nat ->
+  (forall i, In i S -> shareof i = mv K (rows i) R) ->
+  recon_value K S lam shareof = hd 0 R.
+Proof.
+  intros S lam R shareof Hok HD Hsh. unfold recon_ok in Hok. apply andb_true_iff in Hok. destruct Hok as [Hok _].
+  apply veqb_true in Hok. unfold recon_value.
+  rewrite (fold_left_ext_in _ (fun acc i => acc + dot K (vecm K D (lam i) (rows i)) R)).
+  2:{ intros acc i Hi. rewrite (Hsh i Hi), dot_vecm by apply Hrows. reflexivity. }
+  rewrite (fold_left_step_map (fun acc v => acc + dot K v R) (fun i => vecm K D (lam i) (rows i))).
+  rewrite <- (dot_e0 D R HD), <- Hok. unfold recon_combo, vsum.
+  rewrite (dot_fold_vadd_l R D); [now rewrite dot_zeros_l| apply zeros_length|].
+  rewrite Forall_map, Forall_forall. intros i _. apply vecm_length, Hrows.
+Qed.
+
+(* a run all of whose parties end with the closed form for one and the same column R *)
+Definition closed_run (holders : list N) (R : list F) (ids : list N) : list (N * verdict (@shard F)) :=
+  map (fun i => (i, Ok (closed_shard holders R i))) ids.
+
+Lemma closed_run_in : forall holders R ids i s,
+  In (i, Ok s) (closed_run holders R ids) -> In i ids /\ s = closed_shard holders R i.
+Proof.
+  intros holders R ids i s H. apply in_map_iff in H. destruct H as (j & Hj & Hin). inversion Hj; subst. auto.
+Qed.
+
+Lemma gennaro_run_is_closed : forall holders (parties : list (N * list F)) i s,
+  NoDup (map fst parties) -> (forall j, In j (map fst parties) -> In j holders) ->
+  In (i, Ok s) (gennaro_run K rows D g holders parties) ->
+  exists deals, all_some (map (fun p => (fst p, gennaro_deal D (snd p))) parties) = Some deals
+    /\ gennaro_run K rows D g holders parties = closed_run holders (g_rsum deals) (map fst parties)
+    /\ Forall (fun p => wf_gdeal (snd p)) deals /\ deals <> []
+    /\ hd 0 (g_rsum deals) = secret_sum parties /\ (2 <= D)%nat.
+Proof.
+  intros holders parties i s Hnd Hsub Hin.
+  destruct (all_some (map (fun p => (fst p, gennaro_deal D (snd p))) parties)) as [deals|] eqn:Hall.
+  2:{ apply (gennaro_run_failed _ _ Hall) in Hin. discriminate. }
+  destruct (gennaro_run_closed holders parties deals Hnd Hsub Hall) as (Hrun & Hfst & Hwf & Hhd).
+  exists deals. split; [reflexivity|]. rewrite Hrun in *. unfold closed_run. rewrite <- Hfst, map_map.
+  split; [reflexivity|]. split; [exact Hwf|].
+  assert (Hne : deals <> []) by (intro; subst; contradiction).
+  split; [exact Hne|]. split; [exact Hhd|].
+  destruct deals as [|[j dj] deals']; [congruence|]. apply all_some_spec in Hall.
+  inversion Hall as [|p q l r [_ Hd] _]; subst. apply gennaro_deal_wf in Hd. tauto.
+Qed.
+
+Lemma canetti_run_is_closed : forall holders (parties : list (N * list F)) i s,
+  NoDup (map fst parties) -> (forall j, In j (map fst parties) -> In j holders) ->
+  In (i, Ok s) (canetti_run K rows D g holders parties) ->
+  exists deals, all_some (map (fun p => (fst p, canetti_deal D (snd p))) parties) = Some deals
+    /\ canetti_run K rows D g holders parties = closed_run holders (c_rsum deals) (map fst parties)
+    /\ Forall (fun p => wf_cdeal (snd p)) deals /\ deals <> []
+    /\ hd 0 (c_rsum deals) = secret_sum parties /\ (2 <= D)%nat.
+Proof.
+  intros holders parties i s Hnd Hsub Hin.
+  destruct (all_some (map (fun p => (fst p, canetti_deal D (snd p))) parties)) as [deals|] eqn:Hall.
+  2:{ apply (canetti_run_failed _ _ Hall) in Hin. discriminate. }
+  destruct (canetti_run_closed holders parties deals Hnd Hsub Hall) as (Hrun & Hfst & Hwf & Hhd).
+  exists deals. split; [reflexivity|]. rewrite Hrun in *. unfold closed_run. rewrite <- Hfst, map_map.
+  split; [reflexivity|]. split; [exact Hwf|].
+  assert (Hne : deals <> []) by (intro; subst; contradiction).
+  split; [exact Hne|]. split; [exact Hhd|].
+  destruct deals as [|[j dj] deals']; [congruence|]. apply all_some_spec in Hall.
+  inversion Hall as [|p q l r [_ Hd] _]; subst. apply canetti_deal_wf in Hd. tauto.
+Qed.
+
+(* ==== the property theorems (both DKGs) ======================================================= *)
+
+(* every party that completes holds the same verification vector, public key and public shares *)
+Lemma closed_agreement : forall holders R ids i i' s s',
+  In (i, Ok s) (closed_run holders R ids) -> In (i', Ok s') (closed_run holders R ids) ->
+  sh_vv s = sh_vv s' /\ sh_pk s = sh_pk s' /\ sh_pks s = sh_pks s'.
+Proof.
+  intros holders R ids i i' s s' H H'. apply closed_run_in in H, H'. destruct H as [_ ->], H' as [_ ->].
+  cbn [closed_shard sh_vv sh_pk sh_pks]. auto.
+Qed.
+
+Theorem gennaro_agreement : forall holders (parties : list (N * list F)) i i' s s',
+  NoDup (map fst parties) -> (forall j, In j (map fst parties) -> In j holders) ->
+  In (i, Ok s) (gennaro_run K rows D g holders parties) ->
+  In (i', Ok s') (gennaro_run K rows D g holders parties) ->
+  sh_vv s = sh_vv s' /\ sh_pk s = sh_pk s' /\ sh_pks s = sh_pks s'.
+Proof.
+  intros holders parties i i' s s' Hnd Hsub H H'.
+  destruct (gennaro_run_is_closed holders parties i s Hnd Hsub H) as (deals & _ & Hrun & _).
+  rewrite Hrun in H, H'. eapply closed_agreement; eassumption.
+Qed.
+
+(* ... and these are a function of the round-2 broadcasts (the Feldman vectors) only *)
+Theorem gennaro_public_from_broadcasts : forall holders (parties : list (N * list F)) i s,
+  NoDup (map fst parties) -> (forall j, In j (map fst parties) -> In j holders) ->
+  In (i, Ok s) (gennaro_run K rows D g holders parties) ->
+  exists deals, all_some (map (fun p => (fst p, gennaro_deal D (snd p))) parties) = Some deals /\
+    let V := vsum K D (map (fun p => feld (g_round2_bcast K g (snd p))) deals) in
+    sh_vv s = V /\ sh_pk s = dot K (e0 K D) V /\ sh_pks s = map (fun h => (h, mv K (rows h) V)) holders.
+Proof.
+  intros holders parties i s Hnd Hsub H.
+  destruct (gennaro_run_is_closed holders parties i s Hnd Hsub H) as (deals & Hall & Hrun & _).
+  exists deals. split; [exact Hall|]. rewrite Hrun in H. apply closed_run_in in H. destruct H as [_ ->].
+  cbn [g_round2_bcast feld closed_shard sh_vv sh_pk sh_pks].
+  assert (E : vsum K D (map (fun p : N * g_deal => lift K g (gd_r (snd p))) deals) = lift K g (g_rsum deals)).
+  { unfold g_rsum. now rewrite lift_vsum, map_map. }
+  cbv zeta. rewrite E. auto.
+Qed.
+
+Theorem canetti_agreement : forall holders (parties : list (N * list F)) i i' s s',
+  NoDup (map fst parties) -> (forall j, In j (map fst parties) -> In j holders) ->
+  In (i, Ok s) (canetti_run K rows D g holders parties) ->
+  In (i', Ok s') (canetti_run K rows D g holders parties) ->
+  sh_vv s = sh_vv s' /\ sh_pk s = sh_pk s' /\ sh_pks s = sh_pks s'.
+Proof.
+  intros holders parties i i' s s' Hnd Hsub H H'.
+  destruct (canetti_run_is_closed holders parties i s Hnd Hsub H) as (deals & _ & Hrun & _).
+  rewrite Hrun in H, H'. eapply closed_agreement; eassumption.
+Qed.
+
+Theorem canetti_public_from_broadcasts : forall holders (parties : list (N * list F)) i s,
+  NoDup (map fst parties) -> (forall j, In j (map fst parties) -> In j holders) ->
+  In (i, Ok s) (canetti_run K rows D g holders parties) ->
+  exists deals, all_some (map (fun p => (fst p, canetti_deal D (snd p))) parties) = Some deals /\
+    let V := vsum K D (map (fun p => co_x (c_round2_open K g (fst p) (snd p))) deals) in
+    sh_vv s = V /\ sh_pk s = dot K (e0 K D) V /\ sh_pks s = map (fun h => (h, mv K (rows h) V)) holders.
+Proof.
+  intros holders parties i s Hnd Hsub H.
+  destruct (canetti_run_is_closed holders parties i s Hnd Hsub H) as (deals & Hall & Hrun & _).
+  exists deals. split; [exact Hall|]. rewrite Hrun in H. apply closed_run_in in H. destruct H as [_ ->].
+  cbn [c_round2_open co_x closed_shard sh_vv sh_pk sh_pks].
+  assert (E : vsum K D (map (fun p : N * c_deal => lift K g (cd_r (snd p))) deals) = lift K g (c_rsum deals)).
+  { unfold c_rsum. now rewrite lift_vsum, map_map. }
+  cbv zeta. rewrite E. auto.
+Qed.
+
+(* share_i · g = M_i · V: the consistency check of NewBaseShard accepts, and the public share of
+   party i published in every shard is its lifted private share *)
+Lemma closed_matches : forall holders R ids i s,
+  (forall j, In j ids -> In j holders) ->
+  In (i, Ok s) (closed_run holders R ids) ->
+  lift K g (sh_share s) = mv K (rows i) (sh_vv s) /\ In (i, lift K g (sh_share s)) (sh_pks s).
+Proof.
+  intros holders R ids i s Hsub H. apply closed_run_in in H. destruct H as [Hi ->].
+  split; [apply closed_share_matches|]. cbn [closed_shard sh_share sh_pks]. rewrite <- mv_lift.
+  apply in_map_iff. exists i. split; [reflexivity| now apply Hsub].
+Qed.
+
+Theorem gennaro_share_matches : forall holders (parties : list (N * list F)) i s,
+  NoDup (map fst parties) -> (forall j, In j (map fst parties) -> In j holders) ->
+  In (i, Ok s) (gennaro_run K rows D g holders parties) ->
+  lift K g (sh_share s) = mv K (rows i) (sh_vv s) /\ In (i, lift K g (sh_share s)) (sh_pks s).
+Proof.
+  intros holders parties i s Hnd Hsub H.
+  destruct (gennaro_run_is_closed holders parties i s Hnd Hsub H) as (deals & _ & Hrun & _).
+  rewrite Hrun in H. eapply closed_matches; eassumption.
+Qed.
+
+Theorem canetti_share_matches : forall holders (parties : list (N * list F)) i s,
+  NoDup (map fst parties) -> (forall j, In j (map fst parties) -> In j holders) ->
+  In (i, Ok s) (canetti_run K rows D g holders parties) ->
+  lift K g (sh_share s) = mv K (rows i) (sh_vv s) /\ In (i, lift K g (sh_share s)) (sh_pks s).
+Proof.
+  intros holders parties i s Hnd Hsub H.
+  destruct (canetti_run_is_closed holders parties i s Hnd Hsub H) as (deals & _ & Hrun & _).
+  rewrite Hrun in H. eapply closed_matches; eassumption.
+Qed.
+
+(* an honest run whose tapes are long enough completes for every party (no check fires) *)
+Theorem gennaro_completes : forall holders (parties : list (N * list F)),
+  NoDup (map fst parties) -> (forall j, In j (map fst parties) -> In j holders) ->
+  (forall p, In p parties -> gennaro_deal D (snd p) <> None) ->
+  forall i, In i (map fst parties) -> exists s, In (i, Ok s) (gennaro_run K rows D g holders parties).
+Proof.
+  intros holders parties Hnd Hsub Hd i Hi.
+  destruct (all_some_complete (gennaro_deal D) parties Hd) as [deals Hall].
+  destruct (gennaro_run_closed holders parties deals Hnd Hsub Hall) as (Hrun & Hfst & _).
+  rewrite Hrun. rewrite <- Hfst in Hi. apply in_map_iff in Hi. destruct Hi as (p & Hp & Hin).
+  exists (closed_shard holders (g_rsum deals) i). apply in_map_iff. exists p. subst i. auto.
+Qed.
+
+Theorem canetti_completes : forall holders (parties : list (N * list F)),
+  NoDup (map fst parties) -> (forall j, In j (map fst parties) -> In j holders) ->
+  (forall p, In p parties -> canetti_deal D (snd p) <> None) ->
+  forall i, In i (map fst parties) -> exists s, In (i, Ok s) (canetti_run K rows D g holders parties).
+Proof.
+  intros holders parties Hnd Hsub Hd i Hi.
+  destruct (all_some_complete (canetti_deal D) parties Hd) as [deals Hall].
+  destruct (canetti_run_closed holders parties deals Hnd Hsub Hall) as (Hrun & Hfst & _).
+  rewrite Hrun. rewrite <- Hfst in Hi. apply in_map_iff in Hi. destruct Hi as (p & Hp & Hin).
+  exists (closed_shard holders (c_rsum deals) i). apply in_map_iff. exists p. subst i. auto.
+Qed.
+
+(* any set S with reconstruction coefficients λ (λ·M_S = e0) recovers Σ_j r_{j,0} from the parties'
+   shares, and the public key is that value times g *)
+Lemma closed_reconstructs : forall holders R ids S lam (shareof : N -> list F) i0 s0,
+  (0 < D)%nat ->
+  In (i0, Ok s0) (closed_run holders R ids) ->
+  (forall i, In i S -> exists s, In (i, Ok s) (closed_run holders R ids) /\ shareof i = sh_share s) ->
+  recon_ok K rows D S lam = true ->
+  recon_value K S lam shareof = hd 0 R /\ sh_pk s0 = hd 0 R * g.
+Proof.
+  intros holders R ids S lam shareof i0 s0 HD H0 Hsh Hok. split.
+  - apply recon_closed; [exact Hok|exact HD|]. intros i Hi. destruct (Hsh i Hi) as (s & Hs & ->).
+    apply closed_run_in in Hs. destruct Hs as [_ ->]. reflexivity.
+  - apply closed_run_in in H0. destruct H0 as [_ ->]. now apply closed_pk.
+Qed.
+
+Theorem gennaro_reconstructs_dlog : forall holders (parties : list (N * list F)) S lam (shareof : N -> list F) i0 s0,
+  NoDup (map fst parties) -> (forall j, In j (map fst parties) -> In j holders) ->
+  In (i0, Ok s0) (gennaro_run K rows D g holders parties) ->
+  (forall i, In i S -> exists s, In (i, Ok s) (gennaro_run K rows D g holders parties) /\ shareof i = sh_share s) ->
+  recon_ok K rows D S lam = true ->
+  recon_value K S lam shareof = secret_sum parties /\ sh_pk s0 = secret_sum parties * g.
+Proof.
+  intros holders parties S lam shareof i0 s0 Hnd Hsub H0 Hsh Hok.
+  destruct (gennaro_run_is_closed holders parties i0 s0 Hnd Hsub H0) as (deals & _ & Hrun & _ & _ & Hhd & HD).
+  rewrite Hrun in *. rewrite <- Hhd. eapply closed_reconstructs; try eassumption. lia.
+Qed.
+
+Theorem canetti_reconstructs_dlog : forall holders (parties : list (N * list F)) S lam (shareof : N -> list F) i0 s0,
+  NoDup (map fst parties) -> (forall j, In j (map fst parties) -> In j holders) ->
+  In (i0, Ok s0) (canetti_run K rows D g holders parties) ->
+  (forall i, In i S -> exists s, In (i, Ok s) (canetti_run K rows D g holders parties) /\ shareof i = sh_share s) ->
+  recon_ok K rows D S lam = true ->
+  recon_value K S lam shareof = secret_sum parties /\ sh_pk s0 = secret_sum parties * g.
+Proof.
+  intros holders parties S lam shareof i0 s0 Hnd Hsub H0 Hsh Hok.
+  destruct (canetti_run_is_closed holders parties i0 s0 Hnd Hsub H0) as (deals & _ & Hrun & _ & _ & Hhd & HD).
+  rewrite Hrun in *. rewrite <- Hhd. eapply closed_reconstructs; try eassumption. lia.
+Qed.
+
+(* ---- the key depends on every party's secret ------------------------------------------------- *)
+Definition bump_tape (delta : F) (t : list F) : list F :=
+  match t with [] => [] | x :: r => (x + delta) :: r end.
+(* the same run, except that party j's first sampled scalar (its secret) is shifted by delta *)
+Definition bump_party (j : N) (delta : F) (parties : list (N * list F)) : list (N * list F) :=
+  map (fun p => if N.eqb (fst p) j then (fst p, bump_tape delta (snd p)) else p) parties.
+
+Lemma bump_party_fst : forall j delta parties, map fst (bump_party j delta parties) = map fst parties.
+Proof.
+  intros. unfold bump_party. rewrite map_map. apply map_ext. intros p. destruct (N.eqb (fst p) j); reflexivity.
+Qed.
+
+Lemma fold_sum_acc : forall (l : list (N * list F)) a,
+  fold_left (fun acc p => acc + hd 0 (snd p)) l a = a + fold_left (fun acc p => acc + hd 0 (snd p)) l 0.
+Proof.
+  induction l as [|p l IH]; intros a; cbn [fold_left]; [ring|]. rewrite IH, (IH (0 + _)). ring.
+Qed.
+
+Lemma secret_sum_cons : forall p l, secret_sum (p :: l) = hd 0 (snd p) + secret_sum l.
+Proof. intros. unfold secret_sum. cbn [fold_left]. rewrite fold_sum_acc. ring. Qed.
+
+Lemma bump_party_notin : forall j delta parties, ~ In j (map fst parties) -> bump_party j delta parties = parties.
+Proof.
+  intros j delta parties. induction parties as [|p l IH]; intros H; [reflexivity|].
+  cbn [bump_party map]. cbn [map In] in H. destruct (N.eqb (fst p) j) eqn:E.
+  - apply N.eqb_eq in E. exfalso. apply H. now left.
+  - f_equal. apply IH. intro. apply H. now right.
+Qed.
+
+Lemma secret_sum_bump : forall j delta parties t,
+  NoDup (map fst parties) -> In (j, t) parties -> t <> [] ->
+  secret_sum (bump_party j delta parties) = secret_sum parties + delta.
+Proof.
+  intros j delta parties t. induction parties as [|p l IH]; intros Hnd Hin Ht; [contradiction|].
+  cbn [map] in Hnd. inversion Hnd as [|? ? Hnotin Hnd']; subst.
+  change (bump_party j delta (p :: l)) with
+    ((if N.eqb (fst p) j then (fst p, bump_tape delta (snd p)) else p) :: bump_party j delta l).
+  destruct Hin as [Heq|Hin].
+  - subst p. cbn [fst snd]. rewrite N.eqb_refl, bump_party_notin by exact Hnotin.
+    rewrite !secret_sum_cons. cbn [snd]. destruct t as [|x r]; [congruence|]. cbn [bump_tape hd]. ring.
+  - destruct (N.eqb (fst p) j) eqn:E.
+    + apply N.eqb_eq in E. exfalso. apply Hnotin. rewrite E. change j with (fst (j, t)). now apply in_map.
+    + rewrite !secret_sum_cons, IH by assumption. ring.
+Qed.
+
+Lemma Forall2_in_l : forall {A B : Type} (P : A -> B -> Prop) l r x, Forall2 P l r -> In x l -> exists y, In y r /\ P x y.
+Proof.
+  intros A B P l r x H. induction H as [|a b l r Hab _ IH]; intros Hin; [contradiction|].
+  destruct Hin as [->|Hin]; [exists b; split; [now left|exact Hab]|].
+  destruct (IH Hin) as (y & Hy & Hp). exists y. split; [now right|exact Hp].
+Qed.
+
+Lemma closed_pk_bump : forall holders R R' ids ids' i s i' s' delta,
+  (0 < D)%nat -> hd 0 R' = hd 0 R + delta ->
+  In (i, Ok s) (closed_run holders R ids) -> In (i', Ok s') (closed_run holders R' ids') ->
+  sh_pk s' = sh_pk s + delta * g /\ (delta <> 0 -> g <> 0 -> sh_pk s' <> sh_pk s).
+Proof.
+  intros holders R R' ids ids' i s i' s' delta HD Hhd H H'.
+  apply closed_run_in in H, H'. destruct H as [_ ->], H' as [_ ->]. rewrite !closed_pk by exact HD.
+  rewrite Hhd. split; [ring|]. intros Hd Hg Heq.
+  assert (E : delta * g = 0).
+  { assert (E0 : (hd 0 R + delta) * g = hd 0 R * g + delta * g) by ring.
+    rewrite E0 in Heq.
+    assert (E1 : delta * g = (hd 0 R * g + delta * g) + fopp K (hd 0 R * g)) by ring.
+    rewrite E1, Heq. ring. }
+  destruct (fl_eqb K HK delta 0) as [_ _].
+  assert (Hinv : finv K g * (delta * g) = delta) by (field; exact Hg).
+  rewrite E in Hinv. apply Hd. rewrite <- Hinv. ring.
+Qed.
+
+Theorem gennaro_depends_on_all : forall holders (parties : list (N * list F)) j delta i s i' s',
+  NoDup (map fst parties) -> (forall k, In k (map fst parties) -> In k holders) ->
+  In j (map fst parties) ->
+  In (i, Ok s) (gennaro_run K rows D g holders parties) ->
+  In (i', Ok s') (gennaro_run K rows D g holders (bump_party j delta parties)) ->
+  sh_pk s' = sh_pk s + delta * g /\ (delta <> 0 -> g <> 0 -> sh_pk s' <> sh_pk s).
+Proof.
+  intros holders parties j delta i s i' s' Hnd Hsub Hj H H'.
+  assert (Hnd' : NoDup (map fst (bump_party j delta parties))) by now rewrite bump_party_fst.
+  assert (Hsub' : forall k, In k (map fst (bump_party j delta parties)) -> In k holders)
+    by (intro k; rewrite bump_party_fst; apply Hsub).
+  destruct (gennaro_run_is_closed holders parties i s Hnd Hsub H) as (deals & Hall & Hrun & _ & _ & Hhd & HD).
+  destruct (gennaro_run_is_closed holders _ i' s' Hnd' Hsub' H') as (deals' & _ & Hrun' & _ & _ & Hhd' & _).
+  rewrite Hrun in H. rewrite Hrun' in H'.
+  apply in_map_iff in Hj. destruct Hj as ([j0 t] & Hj0 & Hjin). cbn [fst] in Hj0. subst j0.
+  assert (Ht : t <> []).
+  { apply all_some_spec in Hall. destruct (Forall2_in_l _ _ _ _ Hall Hjin) as (q & _ & _ & Hq).
+    cbn [snd] in Hq. intro; subst t. discriminate. }
+  eapply closed_pk_bump; try eassumption; [lia|].
+  rewrite Hhd, Hhd'. eapply secret_sum_bump; eassumption.
+Qed.
+
+Theorem canetti_depends_on_all : forall holders (parties : list (N * list F)) j delta i s i' s',
+  NoDup (map fst parties) -> (forall k, In k (map fst parties) -> In k holders) ->
+  In j (map fst parties) ->
+  In (i, Ok s) (canetti_run K rows D g holders parties) ->
+  In (i', Ok s') (canetti_run K rows D g holders (bump_party j delta parties)) ->
+  sh_pk s' = sh_pk s + delta * g /\ (delta <> 0 -> g <> 0 -> sh_pk s' <> sh_pk s).
+Proof.
+  intros holders parties j delta i s i' s' Hnd Hsub Hj H H'.
+  assert (Hnd' : NoDup (map fst (bump_party j delta parties))) by now rewrite bump_party_fst.
+  assert (Hsub' : forall k, In k (map fst (bump_party j delta parties)) -> In k holders)
+    by (intro k; rewrite bump_party_fst; apply Hsub).
+  destruct (canetti_run_is_closed holders parties i s Hnd Hsub H) as (deals & Hall & Hrun & _ & _ & Hhd & HD).
+  destruct (canetti_run_is_closed holders _ i' s' Hnd' Hsub' H') as (deals' & _ & Hrun' & _ & _ & Hhd' & _).
+  rewrite Hrun in H. rewrite Hrun' in H'.
+  apply in_map_iff in Hj. destruct Hj as ([j0 t] & Hj0 & Hjin). cbn [fst] in Hj0. subst j0.
+  assert (Ht : t <> []).
+  { apply all_some_spec in Hall. destruct (Forall2_in_l _ _ _ _ Hall Hjin) as (q & _ & _ & Hq).
+    cbn [snd] in Hq. intro; subst t. discriminate. }
+  eapply closed_pk_bump; try eassumption; [lia|].
+  rewrite Hhd, Hhd'. eapply secret_sum_bump; eassumption.
+Qed.
+
+(* ==== trusted dealer ============================================================================ *)
+Theorem dealer_consistent : forall holders (t : list F) out,
+  dealer_run K rows D g holders t = Some out ->
+  (* every holder gets a shard; all shards carry the same public material; each share matches *)
+  (forall h, In h holders -> exists s, In (h, Some s) out) /\
+  (forall h s, In (h, Some s) out ->
+     lift K g (sh_share s) = mv K (rows h) (sh_vv s) /\ sh_pk s = hd 0 t * g) /\
+  (forall h h' s s', In (h, Some s) out -> In (h', Some s') out ->
+     sh_vv s = sh_vv s' /\ sh_pk s = sh_pk s' /\ sh_pks s = sh_pks s') /\
+  (* any set with reconstruction coefficients recovers the dealt secret (the first scalar of the tape) *)
+  (forall S lam (shareof : N -> list F),
+     (forall i, In i S -> exists s, In (i, Some s) out /\ shareof i = sh_share s) ->
+     recon_ok K rows D S lam = true -> recon_value K S lam shareof = hd 0 t).
+Proof.
+  intros holders t out H. unfold dealer_run in H.
+  destruct (take_column D t) as [[r t']|] eqn:E; [|discriminate]. inversion H; subst out. clear H.
+  destruct (take_column_length _ _ _ E) as [Hr HD].
+  assert (Hhd : hd 0 r = hd 0 t) by (destruct t as [|x t0]; [discriminate| exact (take_column_hd _ _ _ _ E)]).
+  assert (Hform : forall h s, In (h, Some s) (map (fun h0 => (h0, new_base_shard K rows D g holders h0 (mv K (rows h0) r) (lift K g r))) holders)
+                  -> In h holders /\ s = closed_shard holders r h).
+  { intros h s Hin. apply in_map_iff in Hin. destruct Hin as (h0 & Heq & Hh0). inversion Heq as [[H1 H2]]. subst h0.
+    split; [exact Hh0|]. rewrite new_base_shard_ok in H2 by assumption. now inversion H2. }
+  split; [|split; [|split]].
+  - intros h Hh. exists (closed_shard holders r h). apply in_map_iff. exists h. split; [|exact Hh].
+    now rewrite new_base_shard_ok.
+  - intros h s Hs. destruct (Hform _ _ Hs) as [_ ->]. split; [apply closed_share_matches|].
+    rewrite closed_pk by lia. now rewrite Hhd.
+  - intros h h' s s' Hs Hs'. destruct (Hform _ _ Hs) as [_ ->], (Hform _ _ Hs') as [_ ->]. auto.
+  - intros S lam shareof Hsh Hok. rewrite <- Hhd. apply recon_closed; [exact Hok|lia|].
+    intros i Hi. destruct (Hsh i Hi) as (s & Hs & ->). destruct (Hform _ _ Hs) as [_ ->]. reflexivity.
+Qed.
+
 End DkgProofs.
